@@ -55,10 +55,14 @@ def run(res, tier, seed, replay):
             n_true += want
             for j in range(nt):
                 code = tr["codes"][k * nt + j]
-                lbd, dflt = bool(code & 4096), bool(code & 8192)
-                if (lbd != want or not dflt) and direct is None:
+                lbd, dflt, unstable = bool(code & 4096), bool(code & 8192), bool(code & 16384)
+                if (lbd != want or not dflt or unstable) and direct is None:
                     direct = dict(day=day, time_of_day=times[j], timestamp=day * 86400 + times[j],
-                                  implementation_answers=lbd, property_demands=want, default_schedule=dflt)
+                                  implementation_answers=lbd, property_demands=want, default_schedule=dflt,
+                                  answer_changes_with_call_history=unstable,
+                                  note="asked again after should_trade was called for the same calendar day of the "
+                                       "neighbouring years and months, the schedule answered differently: the answer "
+                                       "does not depend only on the calendar date" if unstable else None)
     if direct:
         res.violation(dict(kind="property-fails-on-implementation", **direct), "direct")
     elif failing:
